@@ -552,14 +552,16 @@ def body(tier: str, seed: int) -> int:
     jobs += [(unit_validate_dispatch, (vi,)) for vi in range(4)]
     jobs += [(unit_update_relative, (w,)) for w in WIDTHS]
     jobs += [(unit_add_data, (w, rel)) for w in WIDTHS for rel in (False, True)]
-    jobs += [(unit_add_segment, (w, vi)) for w in WIDTHS for vi in range(4)]
-    jobs += [(unit_write_to_file, (w, vi)) for w in WIDTHS for vi in range(4)]
-    jobs += [(unit_reader_init_memory, (w, vi)) for w in WIDTHS for vi in range(4)]
-    jobs += [(unit_roundtrip_lemma, (w, vi)) for w in WIDTHS for vi in range(4)]
+    # quick tier: the four heavy families at the narrowest and the widest width (every version); thorough: every width
+    heavy = WIDTHS if tier == 'thorough' else (8, 64)
+    jobs += [(unit_add_segment, (w, vi)) for w in heavy for vi in range(4)]
+    jobs += [(unit_write_to_file, (w, vi)) for w in heavy for vi in range(4)]
+    jobs += [(unit_reader_init_memory, (w, vi)) for w in heavy for vi in range(4)]
+    jobs += [(unit_roundtrip_lemma, (w, vi)) for w in heavy for vi in range(4)]
     for r in run_and_discharge(rep, jobs):
         _replay(rep, r, W)
     for m in ('__init__', '_is_collision', '_validate_segment_addresses_not_overlapping', '_validate_segment_data_not_overlapping', '_validate_segment_not_overlapping', '_update_to_relative_jumps', 'add_segment', 'add_data', 'write_to_file'):
-        rep.add_function('flipjump.fjm.fjm_writer', f'Writer.{m}', Engine.func_lines(getattr(W.Writer, m)), 'w in {8,16,32,64} x version in {0,1,2,3} where the code depends on them')
+        rep.add_function('flipjump.fjm.fjm_writer', f'Writer.{m}', Engine.func_lines(getattr(W.Writer, m)), 'w in {8,16,32,64} (quick tier: add_segment / write_to_file / _init_memory / round trip at w in {8,64}) x version in {0,1,2,3} where the code depends on them')
     rep.add_function('flipjump.fjm.fjm_reader', 'Reader._init_memory', Engine.func_lines(R.Reader._init_memory), '4 widths x 4 versions')
     rep.assume('[A] struct.pack(fmt, *values) followed by struct.unpack(fmt, bytes) is the identity when every value is inside the range of its format code (the range conditions are obligations at Writer.write_to_file)')
     rep.assume('[A] lzma.decompress(lzma.compress(b)) == b for FORMAT_RAW LZMA2 when the decoder dictionary is at least the encoder dictionary (the dictionary condition is an obligation, decided through lzma._encode_filter_properties)')
